@@ -68,6 +68,18 @@ Lemma link_cached_transact :
   C11_Gen.conn_transact_skeleton = ["context.Background"; "fn"; "return"; "db.TransactCtx"; "return"].
 Proof. repeat split; reflexivity. Qed.
 
+(* ---- where the ctx of TransactCtx goes (Model.transact_ctx_with): handed down unchanged to fn and to
+   nothing else - begin() is db.Begin() without arguments (no BeginTx(ctx, ...)), and TransactCtx's skeleton
+   (link_transactctx_skeleton) has no ctx.Err / ctx.Done test before or after the transaction ---- *)
+Lemma link_ctx_flow :
+  C11_Gen.begin_skeleton = ["db.Begin"; "return"; "return"] /\
+  C11_Gen.begin_args = [] /\
+  C11_Gen.transact_args = ["ctx"; "db"; "db.beginTx"; "fn"] /\
+  C11_Gen.transactonconn_args = ["ctx"; "conn"; "b"; "fn"] /\
+  C11_Gen.fn_args = ["ctx"; "tx"] /\
+  C11_Gen.cached_args = ["ctx"; "fn"].
+Proof. repeat split; reflexivity. Qed.
+
 (* ---- stmt.go plumbing (Model.stmt_result): guard := newGuard; start (early return only on a format
    error); the driver call; guard.finish(ctx, err) - a statement, not a value; return. The nil guard's
    finish is empty, its start returns nil; newGuard tests the two log switches. ---- *)
@@ -169,16 +181,17 @@ Qed.
 Lemma option_err_eqb_eq (a b : option err) : option_eqb err_eqb a b = true -> a = b.
 Proof. destruct a, b; simpl; intro H; try discriminate; [apply err_eqb_eq in H; congruence|reflexivity]. Qed.
 
-Lemma model_ok_tx_implies_spec_ok cached sw f b r cs runs seen :
-  model_ok (CTx cached sw f b r cs None runs seen) = true -> spec_ok (CTx cached sw f b r cs None runs seen) = true.
+Lemma model_ok_tx_implies_spec_ok cached sw cx bound f b r cs runs seen :
+  model_ok (CTx cached sw cx bound f b r cs None runs seen) = true ->
+  spec_ok (CTx cached sw cx bound f b r cs None runs seen) = true.
 Proof.
   unfold model_ok, spec_ok.
-  assert (Hw : (if cached then cached_transact_ctx sw true f b else transact_ctx sw true f b) = transact sw f b)
-    by (destruct cached; reflexivity).
+  assert (Hw : (if cached then cached_transact_ctx_with sw true cx bound f b else transact_ctx_with sw true cx bound f b)
+               = transact sw f (body_under_ctx cx bound b)) by (destruct cached; reflexivity).
   assert (Hr : (if cached then cached_transact_ctx_runs true f else transact_ctx_runs true f) = transact_runs f)
     by (destruct cached; reflexivity).
-  rewrite Hw, Hr. pose proof (tx_refines sw f b) as HR.
-  destruct (transact sw f b) as [r0 cs0]. simpl in HR. intro H.
+  rewrite Hw, Hr. pose proof (tx_refines sw f (body_under_ctx cx bound b)) as HR.
+  destruct (transact sw f (body_under_ctx cx bound b)) as [r0 cs0]. simpl in HR. intro H.
   apply andb_true_iff in H as [H Hseen]. apply andb_true_iff in H as [H Hruns].
   apply andb_true_iff in H as [H _]. apply andb_true_iff in H as [H1 H2].
   apply option_err_eqb_eq in H1. apply (list_eqb_eq call_eqb call_eqb_eq) in H2. apply Nat.eqb_eq in Hruns.
